@@ -22,6 +22,9 @@ const fixedDefs = `
   (and ((_ is VArr) a) ((_ is VArr) b)) (and ((_ is VObj) a) ((_ is VObj) b))
   (and ((_ is VExpRef) a) ((_ is VExpRef) b)) (and ((_ is VIntPtrs) a) ((_ is VIntPtrs) b))
   (and ((_ is VGo) a) ((_ is VGo) b)))))
+(define-fun kindOf ((v Val)) Int (ite ((_ is VNil) v) 0 (ite ((_ is VBool) v) 1 (ite ((_ is VNum) v) 14 (ite ((_ is VStr) v) 24
+  (ite ((_ is VArr) v) 23 (ite ((_ is VObj) v) 21 (ite ((_ is VExpRef) v) 25 (ite ((_ is VInt) v) 2 (ite ((_ is VTok) v) 2
+  (ite ((_ is VIntPtrs) v) 23 (ite ((_ is VIntr) v) 22 (vgokind v)))))))))))))
 (define-fun valEq ((a Val) (b Val)) Bool (ite (and ((_ is VNum) a) ((_ is VNum) b)) (fp.eq (vnum a) (vnum b)) (= a b)))
 `
 
@@ -246,9 +249,14 @@ func (p *Prog) dischargeAll(obls []*Obligation, timeout time.Duration, dir strin
 	var mu sync.Mutex
 	queries := make([]string, len(obls))
 	for i, o := range obls {
-		queries[i] = p.BuildQuery(o, nil)
+		if o.Verdict == "" {
+			queries[i] = p.BuildQuery(o, nil)
+		}
 	}
 	for i, o := range obls {
+		if o.Verdict != "" {
+			continue
+		}
 		wg.Add(1)
 		sem <- struct{}{}
 		go func(i int, o *Obligation) {
